@@ -239,6 +239,7 @@ type Fixture struct {
 	lastUse int64
 
 	smallRecv bool // the fake nodes accept connections with a small receive buffer
+	LastLog   []*fakecluster.Request // backend log of the last pipeRunCompare, without the harness' probes and stale traffic of earlier cases
 }
 
 var useClock int64
